@@ -43,15 +43,21 @@ fn main() {
         std::panic::set_hook(Box::new(|_| {}));
     }
     let mut out = Out::create(&outp);
+    let limit: u64 = std::env::var("VERIF_HANG_SECS").ok().and_then(|s| s.parse().ok()).unwrap_or(60);
     for r in read_records(&inp) {
         let w = from_limbs(&r["w"]) as u64;
         let q = r["q"].as_i64().unwrap() as i32;
         let trunc = r["trunc"].as_bool().unwrap();
-        let res = if r["fmt"].as_str().unwrap() == "f32" {
-            one::<f32>(w, q, trunc)
-        } else {
-            one::<f64>(w, q, trunc)
-        };
+        // a call that does not return within VERIF_HANG_SECS (default 60 s; a call takes microseconds) is data: kind "hang"
+        let is32 = r["fmt"].as_str().unwrap() == "f32";
+        let res = call_with_limit(limit, move || {
+            if is32 {
+                one::<f32>(w, q, trunc)
+            } else {
+                one::<f64>(w, q, trunc)
+            }
+        })
+        .unwrap_or_else(|| json!({"kind": "hang", "bits": [], "exp": 0, "mant": [], "valid": false}));
         let mut o = r.clone();
         o["cfg"] = Value::from(cfg_name());
         o["res"] = res;
